@@ -172,7 +172,10 @@ def _err_kind(fb, r):
 def show(d):
     k = d[0]
     if k == "sym":
-        return str(d[1])
+        t = str(d[1])
+        import re as _re
+        # (a symbol that would read as something else when written bare is shown between bars)
+        return t if t and t != "." and not _re.search(r"[\s()|\"';]", t) and not _re.match(r"^[+-]?\.?\d", t) and not t.startswith("#") else "|%s|" % t
     if k == "int":
         return str(d[1])
     if k == "bool":
@@ -198,6 +201,8 @@ STRUCTURES = [
     "()", "(a)", "(a b c)", "(a . b)", "(a b . c)", "((a) (b (c)))", "(() ())", "#()", "#(a b)", "#(a #(b) (c . d))", "(a . (b . (c . ())))",
     "(a . (b c))", "((a . b) . (c . d))", "(#(a) . #(b))", "'a", "'()", "'(a b)", "'#(a)", "''a", "'(a 'b)", "('a . 'b)", "#('a b)", "#(a '(b 'c))",
     "(a '#(b))", "(quote a)", "(1 -2 #t #f)", "(a (b (c (d (e)))))", "#(#(#(a)))", "('a)", "(a . 'b)",
+    # bar-quoted identifiers are symbols whatever is between the bars: a dot, an ellipsis, digits, a boolean's spelling
+    "(a |.| b)", "#(x |.|)", "'|.|", "(|.| . |.|)", "(|...| |1| |#t| |-| |1/2|)", "(a . |.|)",
 ]
 
 
